@@ -47,8 +47,23 @@ class FactoryDC:
   opts: dict = _dc.field(default_factory=dict)
 
 
+def atomic_defaults(steps, warmup=0, decay=0, *, seed=0):
+  return targets.Rec('atomic_defaults', [('steps', steps), ('warmup', warmup), ('decay', decay), ('seed', seed)], (), {})
+
+
 def scenario_pairs(name):
   """Hand-made pairs (a, b, expect_equal)."""
+  if name == 'same_count_different_keys':
+    # both sides set the same NUMBER of arguments, but different ones; the argument set only on
+    # the left happens to equal its default
+    g = graphs.node_fn(1, 1)
+    yield fdl.Config(atomic_defaults, steps=10, warmup=0), fdl.Config(atomic_defaults, steps=10, decay=7), False
+    yield fdl.Config(atomic_defaults, 10, seed=0), fdl.Config(atomic_defaults, 10, warmup=3), False
+    yield fdl.Config(atomic_defaults, steps=10, warmup=0), fdl.Config(atomic_defaults, steps=10, decay=0), True
+    yield (fdl.Config(g, p=[fdl.Config(atomic_defaults, steps=1, decay=0)]),
+           fdl.Config(g, p=[fdl.Config(atomic_defaults, steps=1, seed=5)]), False)
+    yield (fdl.Partial(atomic_defaults, warmup=0), fdl.Partial(atomic_defaults, seed=2), False)
+    return
   if name == 'namedtuple_subclass':
     # sharing that runs through a SUBCLASS of a namedtuple class (and a sub-subclass)
     f = graphs.node_fn(1, 0)
@@ -105,6 +120,7 @@ def cases(tier, r):
   yield 'scenario', {'scenario': 'late_registration', 'seed': 0}
   yield 'scenario', {'scenario': 'dataclass_factory', 'seed': 0}
   yield 'scenario', {'scenario': 'namedtuple_subclass', 'seed': 0}
+  yield 'scenario', {'scenario': 'same_count_different_keys', 'seed': 0}
   for _ in range(900 if tier == 'quick' else 15000):
     yield 'pair', {'seed': r.getrandbits(48), 'size': r.choice([3, 5, 8]),
                    'rewrites': [r.choice(REWRITES) for _ in range(2)], 'mixed': r.random() < 0.3}
